@@ -59,6 +59,20 @@ def FeasibleTour (h : Nat) (as : List Nat) : Prop :=
 def feasibleTour (h : Nat) (as : List Nat) : Bool :=
   feasibleF h as || (decide (as ≠ []) && as.getLast? == some 0 && feasible h as.dropLast)
 
+theorem feasibleTour_iff (h : Nat) (as : List Nat) : feasibleTour h as = true ↔ FeasibleTour h as := by
+  simp only [feasibleTour, FeasibleTour, Bool.or_eq_true, Bool.and_eq_true, decide_eq_true_eq,
+    feasibleF_iff, feasible_iff, beq_iff_eq]
+  constructor
+  · rintro (⟨cs, rfl, hf⟩ | ⟨⟨_, hl⟩, hf⟩)
+    · exact ⟨cs, Or.inl rfl, hf⟩
+    · obtain ⟨ys, rfl⟩ := List.getLast?_eq_some_iff.mp hl
+      rw [List.dropLast_concat] at hf
+      exact ⟨ys, Or.inr rfl, hf⟩
+  · rintro ⟨cs, (rfl | rfl), hf⟩
+    · exact Or.inl ⟨cs, rfl, hf⟩
+    · refine Or.inr ⟨⟨by simp, by simp⟩, ?_⟩
+      rw [List.dropLast_concat]; exact hf
+
 /-- Objective: closed walk depot → customers in order → depot (depot visits inside the action list
 are the depot itself and cost nothing extra when `D 0 0 = 0`). -/
 def objective (D : Nat → Nat → Int) (as : List Nat) : Int :=
